@@ -42,7 +42,8 @@ Fixpoint check_min_balance_list (E : env) (c : cow) (addrs : list N) : res unit 
   end.
 
 Definition check_min_balance (E : env) : M unit :=
-  fun c => (c, check_min_balance_list E c (modified c)).
+  fun c => (c, if mods_consistent c then check_min_balance_list E c (modified c)
+               else Err E_PANIC (* cow.modifiedAccounts() panics; recovered by TransactionGroup *)).
 
 (* ------------------------------------------------------------------ transaction *)
 Definition transaction (E : env) (tx : txn) : M unit :=
